@@ -63,6 +63,13 @@ func (h *History) End(i int, outVal, outVer, err string) {
 // take effect after all, its value shows up as a phantom).
 func (h *History) Drop(i int) { h.Ops[i].done = false }
 
+// EndUnknownVersion completes write i as successful now, with a version nobody was told (its reply was lost).
+func (h *History) EndUnknownVersion(i int) {
+	h.tick++
+	o := &h.Ops[i]
+	o.Err, o.Ret, o.done, o.Multi = "nil", h.tick, true, "lost-reply"
+}
+
 // Tick returns a fresh timestamp (for multi-key calls whose legs share one interval).
 func (h *History) Tick() int64 { h.tick++; return h.tick }
 
